@@ -251,10 +251,37 @@ class Built:
     pass
 
 
-def build_problem(rng, kw_pool, thorough):
-    """A small classical/temporal problem whose identifiers come from one adversarial pool."""
+PROFILES = [(), ("events",), ("processes",), ("events", "processes"), ("durative_actions",), ("trajectory_constraints",),
+            ("contingent",), None]      # None: a random combination
+COND_TABLES = ("PDDL_PLUS_KEYWORDS", "TEMPORAL_PDDL_KEYWORDS", "PDDL3_KEYWORDS", "CONTINGENT_PDDL_KEYWORDS")
+
+
+def keyword_variants(rng, profile, k):
+    """Names spelled exactly like the conditionally reserved words (in several case variants), biased to the tables
+    that the profile switches on / leaves off."""
+    words = []
+    want = {"events": "PDDL_PLUS_KEYWORDS", "processes": "PDDL_PLUS_KEYWORDS", "durative_actions": "TEMPORAL_PDDL_KEYWORDS",
+            "trajectory_constraints": "PDDL3_KEYWORDS", "contingent": "CONTINGENT_PDDL_KEYWORDS"}
+    on = sorted(set(want[f] for f in profile))
+    for _ in range(k):
+        t = rng.choice(on) if (on and rng.random() < 0.7) else rng.choice(COND_TABLES)
+        w = rng.choice(PINNED_KEYWORDS[t])
+        words.append(rng.choice([w, w, w.upper(), w.capitalize(), w.swapcase() if len(w) < 6 else w.title()]))
+    out = []
+    for w in words:
+        if w not in out:
+            out.append(w)
+    return out
+
+
+def build_problem(rng, kw_pool, thorough, profile=()):
+    """A small problem whose identifiers come from one adversarial pool.  `profile` lists the problem features that
+    decide which conditional keyword tables apply (events, processes, durative_actions, trajectory_constraints,
+    contingent); some elements are named exactly like conditionally reserved words."""
     import unified_planning as up
-    from unified_planning.model import Problem, Object, Fluent, InstantaneousAction, DurativeAction, Variable, EndTiming
+    from unified_planning.model import (Problem, Object, Fluent, InstantaneousAction, DurativeAction, Variable, EndTiming,
+                                        Process, Event)
+    from unified_planning.model.contingent import ContingentProblem, SensingAction
     env = up.environment.Environment()
     env.credits_stream = None
     shared = rng.random() < 0.25            # error_used_name disabled: kinds may share names
@@ -263,24 +290,29 @@ def build_problem(rng, kw_pool, thorough):
     tm, em = env.type_manager, env.expression_manager
     maxlen = 6 if thorough else 4
     n_types = rng.randint(1, 3)
-    n_objs = rng.randint(1, 6 if thorough else 4)
-    n_fl = rng.randint(1, 3)
+    n_objs = rng.randint(2, 6 if thorough else 4)
+    n_fl = rng.randint(2, 3)
     n_act = rng.randint(1, 2)
-    temporal = rng.random() < 0.3
-    total = n_types + n_objs + n_fl + n_act + (1 if temporal else 0)
-    pool = name_pool(rng, total + 6, kw_pool, maxlen)
+    temporal = "durative_actions" in profile
+    n_extra = 4                             # durative action, event, process, sensing action
+    total = n_types + n_objs + n_fl + n_act + n_extra
+    forced = keyword_variants(rng, profile, rng.randint(2, 4))
+    pool = forced + [x for x in name_pool(rng, total + 6, kw_pool, maxlen) if x not in forced]
     if shared:
         def draw(k):
             return rng.sample(pool[:max(k, total // 2)], k)
-        tnames, onames, fnames, anames = draw(n_types), draw(n_objs), draw(n_fl), draw(n_act + 1)
+        tnames, onames, fnames, anames = draw(n_types), draw(n_objs), draw(n_fl), draw(n_act + n_extra)
     else:
-        cut = rng.sample(pool, total + 1)
-        tnames, cut = cut[:n_types], cut[n_types:]
-        onames, cut = cut[:n_objs], cut[n_objs:]
-        fnames, cut = cut[:n_fl], cut[n_fl:]
-        anames = cut[:n_act + 1]
+        rest = rng.sample(pool[len(forced):], total - len(forced))
+        # the reserved-word look-alikes always become elements (objects first, then fluents, actions, types)
+        onames = forced[:n_objs] + rest[:max(0, n_objs - len(forced))]
+        rest = forced[n_objs:] + rest[max(0, n_objs - len(forced)):]
+        rng.shuffle(onames)
+        fnames, rest = rest[:n_fl], rest[n_fl:]
+        anames, rest = rest[:n_act + n_extra], rest[n_act + n_extra:]
+        tnames = rest[:n_types]
     pname = rng.choice([None, rng.choice(pool), rand_name(rng), rng.choice(kw_pool)])
-    p = Problem(pname, env)
+    p = (ContingentProblem if "contingent" in profile else Problem)(pname, env)
     types = []
     hier = rng.random() < 0.5
     for i, tn in enumerate(tnames):
@@ -302,10 +334,12 @@ def build_problem(rng, kw_pool, thorough):
         fluents.append(fl)
         p.add_fluent(fl, default_initial_value=(False if fl.type.is_bool_type() else 0))
     unary = [f for f in fluents if f.arity == 1 and f.type.is_bool_type()]
+
+    def params(k):
+        return dict((x, rng.choice(types)) for x in rng.sample(pool, k))
+
     for i in range(n_act):
-        k = rng.randint(0, 3)
-        pn = rng.sample(pool, k)
-        a = InstantaneousAction(anames[i], _parameters=dict((x, rng.choice(types)) for x in pn), _env=env)
+        a = InstantaneousAction(anames[i], _parameters=params(rng.randint(0, 3)), _env=env)
         a.add_effect(f0(), True)
         if unary and rng.random() < 0.6:
             f = rng.choice(unary)
@@ -318,17 +352,51 @@ def build_problem(rng, kw_pool, thorough):
                 a.add_effect(rng.choice(cand)(prm), True)
         p.add_action(a)
     if temporal:
-        d = DurativeAction(anames[n_act], _parameters=dict((x, rng.choice(types)) for x in rng.sample(pool, rng.randint(0, 2))),
-                           _env=env)
+        d = DurativeAction(anames[n_act], _parameters=params(rng.randint(0, 2)), _env=env)
         d.set_fixed_duration(1)
         d.add_effect(EndTiming(), f0(), False)
         p.add_action(d)
-    if rng.random() < 0.15:
+    if "events" in profile:
+        e = Event(anames[n_act + 1], _parameters=params(rng.randint(0, 2)), _env=env)
+        e.add_precondition(f0())
+        e.add_effect(f0(), False)
+        p.add_event(e)
+    if "processes" in profile:
+        r = Fluent("r_%d" % rng.randrange(1000), tm.RealType(), environment=env)
+        p.add_fluent(r, default_initial_value=0)
+        pr = Process(anames[n_act + 2], _parameters=params(rng.randint(0, 1)), _env=env)
+        pr.add_precondition(f0())
+        pr.add_increase_continuous_effect(r(), 1)
+        p.add_process(pr)
+    if "contingent" in profile:
+        sa = SensingAction(anames[n_act + 3], _parameters=params(rng.randint(0, 1)), _env=env)
+        sa.add_observed_fluent(f0())
+        p.add_action(sa)
+    if "trajectory_constraints" in profile:
         p.add_trajectory_constraint(em.Sometime(f0()))
     p.add_goal(f0())
     b = Built()
     b.p, b.env, b.pool, b.types, b.shared, b.temporal = p, env, pool, types, shared, temporal
+    b.profile, b.forced = tuple(sorted(profile)), forced
     return b
+
+
+def problem_features(p):
+    """The features PDDLWriter.__init__ may look at, computed from the Problem by the harness."""
+    import unified_planning as up
+    from unified_planning.model.contingent import ContingentProblem
+    f = []
+    if len(p.processes) > 0:
+        f.append("processes")
+    if len(p.events) > 0:
+        f.append("events")
+    if len(p.trajectory_constraints) > 0:
+        f.append("trajectory_constraints")
+    if any(isinstance(a, up.model.DurativeAction) for a in p.actions):
+        f.append("durative_actions")
+    if isinstance(p, ContingentProblem):
+        f.append("contingent")
+    return f
 
 
 def problem_names(p):
@@ -377,8 +445,9 @@ def all_items(b):
     items = list(p.user_types) + list(p.fluents) + list(p.actions) + list(p.all_objects)
     for f in p.fluents:
         items += list(f.signature)
-    for a in p.actions:
+    for a in list(p.actions) + list(p.processes) + list(p.events):
         items += list(a.parameters)
+    items += list(p.processes) + list(p.events)
     return items
 
 
@@ -560,9 +629,9 @@ class Intern:
 
 def ser_pcase(c, kwt):
     t = Intern()
-    body = ("PC {| p_kws := %s; p_hier := %s; p_pnames := %s; p_reqs := %s; p_names := %s; p_otn := %s; p_nto := %s; "
+    body = ("PC {| p_kws := %s; p_feats := %s; p_hier := %s; p_pnames := %s; p_reqs := %s; p_names := %s; p_otn := %s; p_nto := %s; "
             "p_item_q := %s; p_name_q := %s; p_direct := %s |}" % (
-                kwt.ref(c["kws"]), gbool(c["hier"]), glist([t.str(n) for n in c["pnames"]]),
+                kwt.ref(c["kws"]), glist([t.str(f) for f in c["feats"]]), gbool(c["hier"]), glist([t.str(n) for n in c["pnames"]]),
                 glist([t.item(i) for i in c["reqs"]]), glist([t.str(n) for n in c["names"]]),
                 glist([gpair(t.item(i), t.str(n)) for i, n in c["otn"]]),
                 glist([gpair(t.str(n), t.item(i)) for n, i in c["nto"]]),
@@ -629,7 +698,7 @@ def pddl_case(rng, b, T, mode, stats):
     for n in set(b.pool + pn + [r for _, r in calls]):
         if p.has_name(n) != (n in pn):
             extra_bad.append("has_name(%r) disagrees with the element names" % n)
-    c = {"kws": kws, "hier": bool(w.problem_kind.has_hierarchical_typing() or len(p.user_types) > 1), "pnames": pn,
+    c = {"kws": kws, "feats": problem_features(p), "hier": bool(w.problem_kind.has_hierarchical_typing() or len(p.user_types) > 1), "pnames": pn,
          "reqs": [ids(i) for i, _ in calls], "names": [r for _, r in calls],
          "otn": [(ids(i), n) for i, n in w.otn_renamings.items()],
          "nto": [(n, ids(i)) for n, i in w.nto_renamings.items()], "item_q": [], "name_q": [], "direct": []}
@@ -734,7 +803,7 @@ def anml_case(rng, b, T, mode, stats):
 # ------------------------------------------------------------------------------------------------ run
 def run(ctx):
     stats = {"pddl_items": 0, "pddl_renamed": 0, "pddl_counter_suffix": 0, "anml_items": 0, "anml_renamed": 0,
-             "skipped_problem_construction": 0, "shared_name_problems": 0, "temporal_problems": 0,
+             "skipped_problem_construction": 0, "shared_name_problems": 0, "temporal_problems": 0, "profiles": {}, "reserved_word_lookalikes": 0,
              "modes": {"pddl-writer": 0, "pddl-direct": 0, "anml-writer": 0, "anml-direct": 0}}
     # ---- translator tie (two readings of the constants)
     rc, tlog, T = run_translator()
@@ -766,7 +835,13 @@ def run(ctx):
     nontrivial = set()
     for k in range(n_problems):
         try:
-            b = build_problem(rng, kw_pool, not ctx.quick)
+            profile = PROFILES[k % len(PROFILES)]
+            if profile is None:
+                profile = tuple(f for f in ("events", "processes", "durative_actions", "trajectory_constraints", "contingent")
+                                if rng.random() < 0.4)
+            b = build_problem(rng, kw_pool, not ctx.quick, profile)
+            stats["profiles"]["+".join(b.profile) or "none"] = stats["profiles"].get("+".join(b.profile) or "none", 0) + 1
+            stats["reserved_word_lookalikes"] += len(b.forced)
         except Exception as e:  # a generated problem the library refuses (e.g. duplicate parameter names) is skipped
             stats["skipped_problem_construction"] += 1
             continue
@@ -786,7 +861,7 @@ def run(ctx):
             if not is_ascii(txt):
                 continue
             stats["modes"]["%s-%s" % (kind, mode)] += 1
-            raw.append({"kind": kind, "mode": mode, "shared_names": b.shared, "case": c})
+            raw.append({"kind": kind, "mode": mode, "shared_names": b.shared, "profile": list(b.profile), "case": c})
             cases.append(ser_pcase(c, kwt) if kind == "pddl" else ser_acase(c))
             if renamed > 0:
                 nontrivial.add(hashlib.sha1(txt.encode()).hexdigest())
@@ -821,7 +896,8 @@ def run(ctx):
             continue
         r = raw[i]
         ctx.fail("oracle", "%s writer (%s): property C38 fails on the implementation: %s" % (r["kind"].upper(), r["mode"], "; ".join(bad[:3])),
-                 ["c38", r["kind"], r["mode"], "oracle"] + (["shared-names"] if r["shared_names"] else []),
+                 ["c38", r["kind"], r["mode"], "oracle"] + (["shared-names"] if r["shared_names"] else [])
+                 + ["feature:" + f for f in r["profile"]],
                  {"case": r, "oracle": bad}, True)
     if coq_error:
         ctx.fail("corr", "the correspondence cases could not be evaluated: %s" % coq_error[-300:], ["c38", "coq-error"],
